@@ -7,6 +7,8 @@ import sys, os, json, importlib.util
 sys.path.insert(0, os.path.dirname(os.path.abspath(__file__)))
 from common import *
 
+OUTPUTS = ['NbSchemas.v']
+
 # keyword -> handled below; everything else inside a schema object must be in IGNORED
 ANNOTATIONS = {'description', 'title', '$schema', 'definitions'}
 # non-keywords that occur in nbformat's schema files (typos / misplaced properties); jsonschema ignores unknown keywords
